@@ -426,3 +426,82 @@ func (g *G) Top() ap.Item {
 	}
 	return g.StructItem(g.pickKind(), 0, false)
 }
+
+// Any generates a value of an arbitrary exported type of the library by
+// reflection (used by C04's writer for the non-vocabulary-struct decode entry
+// points: IRI, IRIs, ItemCollection, NaturalLanguageValues, LangRefValue,
+// Source, PublicKey, …). Unknown shapes fall back to their zero value.
+func (g *G) Any(t reflect.Type, depth int) reflect.Value {
+	for i := range Kinds {
+		if Kinds[i].Type == t {
+			return g.Struct(&Kinds[i], depth, false).Elem()
+		}
+	}
+	if t == LinkKind.Type {
+		l := &ap.Link{}
+		g.fill(reflect.ValueOf(l).Elem(), &LinkKind, depth, false)
+		return reflect.ValueOf(l).Elem()
+	}
+	v := reflect.New(t).Elem()
+	g.anyInto(v, depth)
+	return v
+}
+
+func (g *G) anyInto(v reflect.Value, depth int) {
+	t := v.Type()
+	switch {
+	case t == tIRI:
+		v.Set(reflect.ValueOf(g.IRI()))
+		return
+	case t == tItemCol:
+		v.Set(reflect.ValueOf(g.List(depth, 0)))
+		return
+	case t == tNLV:
+		v.Set(reflect.ValueOf(g.NLV(0)))
+		return
+	case t == tTime:
+		v.Set(reflect.ValueOf(g.Time()))
+		return
+	case t.Kind() == reflect.Interface && tIRI.Implements(t):
+		if it := g.Item(depth, true, true); it != nil {
+			v.Set(reflect.ValueOf(it))
+		}
+		return
+	case t == tMime || t == tVocType || t == tLangRef || t == tSource || t == tPubKey || t == tEndp || t == tDuration:
+		g.setField(v, reflect.StructField{Name: ""}, depth)
+		return
+	}
+	switch t.Kind() {
+	case reflect.String:
+		v.SetString(string(g.Text()))
+	case reflect.Slice:
+		if t.Elem().Kind() == reflect.Uint8 {
+			v.SetBytes(g.Text())
+			return
+		}
+		n := g.T.Draw(4)
+		s := reflect.MakeSlice(t, n, n)
+		for i := 0; i < n; i++ {
+			g.anyInto(s.Index(i), depth+1)
+		}
+		v.Set(s)
+	case reflect.Struct:
+		for i := 0; i < t.NumField(); i++ {
+			if f := v.Field(i); f.CanSet() && g.T.Bool(3, 4) {
+				g.anyInto(f, depth+1)
+			}
+		}
+	case reflect.Pointer:
+		p := reflect.New(t.Elem())
+		g.anyInto(p.Elem(), depth+1)
+		v.Set(p)
+	case reflect.Bool:
+		v.SetBool(g.T.Bool(1, 2))
+	case reflect.Int, reflect.Int64, reflect.Int32:
+		v.SetInt(int64(g.T.Draw(1000)) - 100)
+	case reflect.Uint, reflect.Uint64, reflect.Uint32:
+		v.SetUint(uint64(g.T.Draw(1000)))
+	case reflect.Float64, reflect.Float32:
+		v.SetFloat(float64(g.T.Draw(100000))/100 - 100)
+	}
+}
